@@ -31,7 +31,11 @@ fn rsum(v) { var t = 0; for r in v { for x in r { t = t + x; } } return t; }
 fn bmcycle(u) { var v = []; var w = [v]; v.push(v.push); v.push(w); v.push([u]); churn(2); return (v.len(), w[0].len(), v[2]); }
 fn bmcycle2(u) { var a = mkinst(u); var b = mkinst(u + 1); a.cb = a.sum; a.other = b; b.other = a; b.cb = a.sum; churn(2); return (a.cb(), b.other.a, b.cb()); }
 fn bmcycle3(u) { var m = {}; var ins = m.insert; m.insert("self", ins); m.insert("m", [m, ins]); var it = [m, [u]].iter(); m.insert("it", it.next); churn(2); return (m.len(), it.next() == m, it.next()); }
-fn derivreuse(u) { var r = []; var i = 0; while i < 6 { r.push(mksub2(Inst).new().derives(Inst)); r.push(mksub2(Box).new().derives(Inst)); r.push(mksub2(Box).new().derives(Box)); r.push(mksub2(Inst).new().derives(Box)); i = i + 1; } return (u, r); }
+fn mksub2v(base) { var s1 = [base]; #[derive(base), constructor(new)] class Sub2 { fn own(self) { return 2; } } return Sub2; }
+fn mksub2w(base) { var s1 = [base]; var s2 = [base]; #[derive(base), constructor(new)] class Sub2 { fn own(self) { return 2; } } return Sub2; }
+fn mksub2x(base) { var s1 = [base]; var s2 = [base]; var s3 = [1]; #[derive(base), constructor(new)] class Sub2 { fn own(self) { return 2; } } return Sub2; }
+fn mksub2n(base) { var s1 = || { return base; }; #[derive(base), constructor(new)] class Sub2 { } return Sub2; }
+fn derivreuse(u) { var mk = [mksub2, mksub2v, mksub2w, mksub2x, mksub2n]; var yes = 0; var no = 0; var ai = 0; while ai < 5 { var bi = 0; while bi < 5 { if mk[ai](Inst).new().derives(Inst) { yes = yes + 1; } if mk[bi](Box).new().derives(Inst) { no = no + 1; } bi = bi + 1; } ai = ai + 1; } return (u, yes, no); }
 fn rangeeq(u) { var a = u..(u + 3); var m = {a: [u]}; churn(1); return (a == u..(u + 3), m.has_key(u..(u + 3)), m.get(u..(u + 3))); }
 fn drain_twice(it) { var n = 0; for x in it { n = n + 1; } churn(1); for x in it { n = n + 100; } churn(1); try { it.next(); n = n + 1000; } catch e { n = n + 10; } return n; }
 fn setfirst(v, x) { v[0] = x; x = nil; churn(1); return [v[0], v.len()]; }
